@@ -113,6 +113,11 @@ type RunConfig struct {
 	Runners   RunnerSpec    `json:"runners"`
 	ReadYield int           `json:"read_yield"` // every n-th Read is a scheduling point (0: none)
 	Prelude   []PreludeSpec `json:"prelude,omitempty"`
+	// Carrier: the kind of Go object that hands the stream over ("" = the
+	// simulated device, a plain io.Reader; bytes | bufio | file | pipe, see
+	// carrier.go); CarrierOffset: bytes of header already consumed from it
+	Carrier       string `json:"carrier,omitempty"`
+	CarrierOffset int    `json:"carrier_offset,omitempty"`
 	Picks     []int         `json:"picks,omitempty"`
 	Note      string        `json:"note,omitempty"`
 }
@@ -127,6 +132,9 @@ type PreludeSpec struct {
 	// Fault: the earlier call may itself have been cut short by a failing
 	// source (an aborted detection leaves whatever it had accumulated)
 	Fault FaultSpec `json:"fault,omitempty"`
+	// SameSource: the earlier call and the observed call are given the same
+	// source object (the device was simply used twice)
+	SameSource bool `json:"same_source,omitempty"`
 }
 
 // Required returns the number of stream bytes the workflow needs.
